@@ -120,7 +120,7 @@ def _check_file(f, chans, level, fails, count=True):
         fails.append(({"kind": "path", "level": level + "-groups"}, {"observed_groups": len(f.groups())}))
 
 
-POOL = ["'", "/", " ", "a", "b", "é", "e\u0301", "\u2126", "\uf900", "中", "\U0001F600", "́", "\\", "\"", "\t", ".", "''", "/'", "ß"]
+POOL = ["'", "/", " ", "a", "b", "\ufeff", "\n", "é", "e\u0301", "\u2126", "\uf900", "中", "\U0001F600", "́", "\\", "\"", "\t", ".", "''", "/'", "ß"]
 
 
 def random_name_traces(seed, ntraces, per_trace):
